@@ -31,20 +31,47 @@ from ast_translate64 import clang_docs, walk, tystr, zl, TRANSPARENT, CASTS, WID
 REPO = os.environ.get("VERIF_REPO", "/repo")
 SRC = "src/time_zone_posix.cc"
 TARGETS = ["ParseInt", "ParseAbbr", "ParseOffset", "ParseDateTime", "ParsePosixSpec"]
+# second unit: the data-side helpers of parse() in src/time_zone_format.cc (ParseInt<T> is instantiated for int and long)
+SRC2 = "src/time_zone_format.cc"
+TARGETS2 = ["ParseInt", "ParseOffset", "ParseSubSeconds"]
 UWIDTH = {"unsigned long": 64, "unsigned long long": 64, "unsigned int": 32}
 
 
 def asts_of(fn):
+    """definitions of fn in SRC: one FunctionDecl, or the instantiations of a function template (suffix = the
+       instantiated element type)"""
     out, seen = [], set()
     for d in clang_docs(fn, SRC):
         for m in walk(d):
             if m.get("kind") == "FunctionDecl" and m.get("name") == fn and m.get("id") not in seen \
                     and any(c.get("kind") == "CompoundStmt" for c in m.get("inner", [])):
                 seen.add(m.get("id"))
+                if re.search(r"\bT\b", qt(m)):
+                    continue                                   # the uninstantiated pattern
                 out.append(m)
-    if len(out) != 1:
-        raise Untranslatable("expected one definition of %s, found %d" % (fn, len(out)))
-    return out[0]
+    if not out:
+        raise Untranslatable("no definition of %s" % fn)
+    if len(out) == 1:
+        return [(fn, out[0])]
+    res = []
+    for m in out:
+        ta = [c for c in m.get("inner", []) if c.get("kind") == "TemplateArgument"]
+        if len(ta) != 1:
+            raise Untranslatable("overloaded (not templated) function " + fn)
+        res.append(("%s_%s" % (fn, ta[0].get("type", {}).get("qualType", "T").replace(" ", "_")), m))
+    return res
+
+
+def fn_key(call_callee_ref, known):
+    """the translated function a DeclRefExpr to a function designates (template instantiations by their type)"""
+    name = call_callee_ref.get("name")
+    if name in known:
+        return name
+    t = call_callee_ref.get("type", {}).get("qualType", "")
+    for k, info in known.items():
+        if k.startswith(name + "_") and info.get("ctype") == t:
+            return k
+    return None
 
 
 def qt(n):
@@ -63,7 +90,7 @@ def is_charptr(t):
 
 def outparam_kind(t):
     t = t.strip()
-    if re.match(r"^(int|std::int_fast32_t|std::int_fast64_t|long) \*$", t):
+    if re.match(r"^(int|std::int_fast32_t|std::int_fast64_t|long|T|detail::femtoseconds|cctz::detail::femtoseconds) \*$", t):
         return "int"
     if re.match(r"^std::string \*$", t):
         return "str"
@@ -91,6 +118,14 @@ def path_of(n):
             return None
 
 
+def isptr(kd):
+    return kd == "ptr" or kd.startswith("ptr:")
+
+
+def bufof(kd):
+    return kd[4:] if kd.startswith("ptr:") else "buf"
+
+
 class B:
     """one binding: text, and the variable it (re)binds if it is a program variable"""
     def __init__(self, text, var=None):
@@ -110,14 +145,15 @@ def mentions(term, var):
 
 
 class Fn:
-    def __init__(self, ast, known):
+    def __init__(self, key, ast, known, prefix="sp_"):
         self.ast, self.known = ast, known          # known: name -> dict(gname, outs=[(suffix, kind)], ret)
-        self.name = ast["name"]
-        self.gname = "sp_" + self.name
+        self.name = key
+        self.gname = prefix + key
         self.tmp = 0
         self.loops = []
         self.kinds = {}                             # variable -> 'Z' | 'bool' | 'ptr' | 'tptr:<table>' | 'str'
         self.tables = {}                            # table name -> list of char codes
+        self.itables = {}                           # global integer table -> values
         self.outs = []                              # [(var, kind)] in result order
         self.out_roots = {}                         # out parameter -> kind
         self.local_outs = {}                        # local int/struct variable passed by address -> handled as plain variable(s)
@@ -177,7 +213,7 @@ class Fn:
     def as_b(self, t, kd):
         if kd == "bool":
             return t
-        if kd == "ptr" or kd.startswith("tptr"):
+        if kd.startswith("ptr") or kd.startswith("tptr"):
             return "(negb (%s =? -1))" % t
         return "(negb (%s =? 0))" % t
 
@@ -209,7 +245,7 @@ class Fn:
         if k in CASTS:
             ck = n.get("castKind")
             b, t, kd = self.expr(inner[-1], scope)
-            if ck in ("LValueToRValue", "NoOp", "FunctionToPointerDecay", "ArrayToPointerDecay"):
+            if ck in ("LValueToRValue", "NoOp", "FunctionToPointerDecay", "ArrayToPointerDecay", "ConstructorConversion"):
                 return b, t, kd
             if ck == "NullToPointer":
                 return b, "(-1)", "ptr"
@@ -274,9 +310,9 @@ class Fn:
                     raise Untranslatable("increment of a non-variable")
                 kd = self.kinds.get(v, "Z")
                 d = "1" if op == "++" else "(-1)"
-                if kd == "ptr":
+                if isptr(kd):
                     x = self.fresh()
-                    step = [B("do %s <- padd buf %s %s ;;\n" % (x, v, d))]
+                    step = [B("do %s <- padd %s %s %s ;;\n" % (x, bufof(kd), v, d))]
                 elif kd == "Z":
                     w, sg = self.width(tgt)
                     x = self.fresh()
@@ -289,9 +325,9 @@ class Fn:
                 return step + [B("let %s := %s in\n" % (v, x), v)], v, kd
             if op == "*":
                 b, t, kd = self.expr(inner[0], scope)
-                if kd == "ptr":
+                if isptr(kd):
                     x = self.fresh()
-                    return b + [B("do %s <- rd buf %s ;;\n" % (x, t))], x, "Z"
+                    return b + [B("do %s <- rd %s %s ;;\n" % (x, bufof(kd), t))], x, "Z"
                 p = path_of(n)
                 if p is not None:
                     v = self.var_of_path(*p)
@@ -320,15 +356,22 @@ class Fn:
                 t1, t2 = self.as_b(t1, k1), self.as_b(t2, k2)
                 if not b2:
                     return b1, "(%s %s %s)" % (t1, op, t2), "bool"
-                if rebound(b2):
-                    raise Untranslatable("assignment in the right operand of " + op)
                 x = self.fresh()
+                rb = [v for v in scope if v in rebound(b2)]
+                if rb:
+                    # the right operand's side effects happen only when it is evaluated: the block hands back
+                    # its truth value together with the variables it rebinds
+                    tupv = "(%s)" % ", ".join([x] + rb)
+                    skip = "OK (%s, %s)" % ("false" if op == "&&" else "true", ", ".join(rb))
+                    run = self.block(b2, "OK (%s, %s)" % (t2, ", ".join(rb)))
+                    e = ("(if %s then %s else %s)" % (t1, run, skip)) if op == "&&" else ("(if %s then %s else %s)" % (t1, skip, run))
+                    return b1 + [B("do '%s <- %s ;;\n" % (tupv, e))] + [B("", v) for v in rb], x, "bool"
                 e = ("(if %s then %s else OK false)" if op == "&&" else "(if %s then OK true else %s)") % (t1, self.block(b2, "OK %s" % t2))
                 return b1 + [B("do %s <- %s ;;\n" % (x, e))], x, "bool"
             b1, t1, k1 = self.expr(inner[0], scope)
             b2, t2, k2 = self.expr(inner[1], scope)
             b1, t1 = self.order(b1, t1, b2)
-            ptrs = (k1 == "ptr" or k1.startswith("tptr"), k2 == "ptr" or k2.startswith("tptr"))
+            ptrs = (isptr(k1) or k1.startswith("tptr"), isptr(k2) or k2.startswith("tptr"))
             if op in ("==", "!=", "<", "<=", ">", ">="):
                 if ptrs[0] != ptrs[1] and not (ptrs[0] and t2 == "(-1)") and not (ptrs[1] and t1 == "(-1)"):
                     raise Untranslatable("comparison of a pointer with an integer")
@@ -340,13 +383,13 @@ class Fn:
                     return b1 + b2, m[op] % (a, c), "bool"
                 return b1 + b2, ("(%s <? %s)" if op == ">" else "(%s <=? %s)") % (c, a), "bool"
             if op in ("+", "-") and ptrs[0] and not ptrs[1]:
-                if k1 != "ptr":
+                if not isptr(k1):
                     raise Untranslatable("arithmetic on a table pointer")
                 x = self.fresh()
                 off = self.as_z(t2, k2) if op == "+" else "(- %s)" % self.as_z(t2, k2)
-                return b1 + b2 + [B("do %s <- padd buf %s %s ;;\n" % (x, t1, off))], x, "ptr"
+                return b1 + b2 + [B("do %s <- padd %s %s %s ;;\n" % (x, bufof(k1), t1, off))], x, k1
             if op == "-" and ptrs[0] and ptrs[1]:
-                if k1 == "ptr" and k2 == "ptr":
+                if isptr(k1) and isptr(k2) and bufof(k1) == bufof(k2):
                     x = self.fresh()
                     return b1 + b2 + [B("do %s <- pdiff %s %s ;;\n" % (x, t1, t2))], x, "Z"
                 if k1.startswith("tptr") and k2.startswith("tptr") and k2 == k1 and t2 == "0":
@@ -376,6 +419,11 @@ class Fn:
             if v is None:
                 p = path_of(inner[0])
                 v = self.var_of_path(*p) if p else None
+            if v is not None and v in scope and isptr(self.kinds.get(v, "Z")) and op in ("+=", "-="):
+                b, t, kd = self.expr(inner[1], scope)
+                x = self.fresh()
+                off = self.as_z(t, kd) if op == "+=" else "(- %s)" % self.as_z(t, kd)
+                return b + [B("do %s <- padd %s %s %s ;;\n" % (x, bufof(self.kinds[v]), v, off)), B("let %s := %s in\n" % (v, x), v)], v, self.kinds[v]
             if v is None or v not in scope or self.kinds.get(v, "Z") != "Z":
                 raise Untranslatable("compound assignment to something that is not an integer variable")
             b, t, kd = self.expr(inner[1], scope)
@@ -392,6 +440,26 @@ class Fn:
                     x = y
                 return out + [B("let %s := %s in\n" % (v, x), v)], v, "Z"
             raise Untranslatable("compound assignment " + op)
+        if k == "ArraySubscriptExpr":
+            base = strip(inner[0])
+            bb, bt, bk = self.expr(inner[0], scope) if base.get("referencedDecl", {}).get("name") in scope else ([], None, None)
+            ib, it, ik = self.expr(inner[1], scope)
+            if bk is not None and isptr(bk) and bk != "ptr":
+                x, y = self.fresh(), self.fresh()
+                return bb + ib + [B("do %s <- padd %s %s %s ;;\n" % (x, bufof(bk), bt, self.as_z(it, ik))),
+                                  B("do %s <- rd %s %s ;;\n" % (y, bufof(bk), x))], y, "Z"
+            if base.get("kind") == "DeclRefExpr" and base.get("referencedDecl", {}).get("kind") == "VarDecl":
+                nm = base["referencedDecl"]["name"]
+                v = global_const(nm, SRC)
+                if isinstance(v, list) and all(isinstance(e, int) for e in v):
+                    self.itables["g_" + nm] = v
+                    y = self.fresh()
+                    return ib + [B("do %s <- tbl_get g_%s %s ;;\n" % (y, nm, self.as_z(it, ik)))], y, "Z"
+            raise Untranslatable("subscript")
+        if k in ("CXXConstructExpr", "CXXTemporaryObjectExpr") and len(inner) == 1 and re.search(r"duration|femtoseconds|seconds", qt(n)):
+            return self.expr(inner[0], scope)                 # std::chrono::duration built from its count
+        if k == "CXXOperatorCallExpr" and len(inner) == 3 and strip(inner[0]).get("referencedDecl", {}).get("name") == "operator=":
+            return self.assign_expr({"inner": [inner[1], inner[2]]}, scope)     # duration::operator=
         if k == "ConditionalOperator":
             raise Untranslatable("conditional operator")
         if k == "CallExpr":
@@ -424,7 +492,7 @@ class Fn:
             t = self.as_z(t, kd)
         elif vk == "bool":
             t = self.as_b(t, kd)
-        elif vk == "ptr" and not (kd == "ptr"):
+        elif isptr(vk) and not (isptr(kd) and (kd == "ptr" or bufof(kd) == bufof(vk))):
             raise Untranslatable("pointer assigned from " + kd)
         return b + [B("let %s := %s in\n" % (v, t), v)], v, vk
 
@@ -442,10 +510,12 @@ class Fn:
             if not sg:
                 raise Untranslatable("numeric_limits of an unsigned type")
             return [], zl((1 << (w - 1)) - 1 if name == "max" else -(1 << (w - 1))), "Z"
-        info = self.known.get(name)
+        key = fn_key(c.get("referencedDecl", {}), self.known)
+        info = self.known.get(key) if key else None
         if info is None:
             raise Untranslatable("call of " + str(name))
         binds, terms, outvars = [], [], []
+        bufarg = "buf"
         plain = [a for a in args]
         for a, (pname, pkind) in zip(plain, info["params"]):
             if pkind == "buf":
@@ -471,14 +541,26 @@ class Fn:
                     if any(mentions(x, v) for x in terms):
                         raise Untranslatable("argument evaluation order")
                 binds += b
-                terms.append(t if kd in ("ptr", "str") or kd.startswith("tptr") else (self.as_b(t, kd) if pkind == "bool" else self.as_z(t, kd)))
+                if pkind.startswith("ptr"):
+                    if not isptr(kd):
+                        raise Untranslatable("pointer argument of kind " + kd)
+                    if pkind == "ptr:first":
+                        bufarg = bufof(kd)
+                    else:
+                        terms.append(bufof(kd))                 # the buffer this extra pointer parameter points into
+                    terms.append(t)
+                else:
+                    terms.append(t if kd == "str" or kd.startswith("tptr") else (self.as_b(t, kd) if pkind == "bool" else self.as_z(t, kd)))
         r = self.fresh()
         pat = "'(%s)" % ", ".join([r] + outvars) if outvars else r
-        text = "do %s <- %s fuel buf %s ;;\n" % (pat, info["gname"], " ".join(terms))
+        text = "do %s <- %s fuel %s %s ;;\n" % (pat, info["gname"], bufarg, " ".join(terms))
         out = binds + [B(text)]
         for v in outvars:
             out.append(B("", v))                     # marks v as rebound (the pattern above binds it)
-        return out, r, info["ret"]
+        rk = info["ret"]
+        if rk == "ptr" and bufarg != "buf":
+            rk = "ptr:" + bufarg
+        return out, r, rk
 
     # ------------------------------------------------------------ statements
     @staticmethod
@@ -505,6 +587,11 @@ class Fn:
                         got.add(v)
                 elif k == "UnaryOperator" and m.get("opcode") in ("++", "--"):
                     got.add(strip(m["inner"][0]).get("referencedDecl", {}).get("name"))
+                elif k == "CXXOperatorCallExpr" and len(m.get("inner", [])) == 3 \
+                        and strip(m["inner"][0]).get("referencedDecl", {}).get("name") == "operator=":
+                    p = path_of(m["inner"][1])
+                    if p:
+                        got.add(self.var_of_path(*p))
                 elif k == "CXXMemberCallExpr":
                     me = m["inner"][0]
                     if me.get("kind") == "MemberExpr" and me.get("name") == "assign":
@@ -512,8 +599,8 @@ class Fn:
                         if p:
                             got.add(self.var_of_path(*p))
                 elif k == "CallExpr":
-                    c = strip(m["inner"][0]).get("referencedDecl", {}).get("name")
-                    info = self.known.get(c)
+                    ck = fn_key(strip(m["inner"][0]).get("referencedDecl", {}), self.known)
+                    info = self.known.get(ck) if ck else None
                     if info:
                         for a, (pname, pkind) in zip(m["inner"][1:], info["params"]):
                             if pkind in ("int", "str", "struct"):
@@ -586,13 +673,15 @@ class Fn:
         """a `return val;` in the current context"""
         if tail[0] == "loop":
             return "OK (Some %s, %s)" % (self.ret_tuple(val), self.tup(tail[3]))
+        if tail[0] in ("ploop", "fall"):
+            raise Untranslatable("return inside a joined branch")
         return "OK %s" % self.ret_tuple(val)
 
     def seq(self, stmts, scope, tail):
         if not stmts:
             if tail[0] == "fall":
                 return "OK %s" % self.tup(tail[1])
-            if tail[0] == "loop":
+            if tail[0] in ("loop", "ploop"):
                 return tail[4]                                        # increment + next iteration
             raise Untranslatable("control reaches the end of a non-void function")
         st, rest = stmts[0], stmts[1:]
@@ -614,7 +703,7 @@ class Fn:
                 b, t, kd = self.expr(vd["inner"][-1], sc)
                 ty = tystr(vd.get("type", {}))
                 if is_charptr(qt(vd)):
-                    self.kinds[name] = kd if (kd == "ptr" or kd.startswith("tptr")) else "ptr"
+                    self.kinds[name] = kd if (isptr(kd) or kd.startswith("tptr")) else "ptr"
                 elif ty == "bool":
                     self.kinds[name] = "bool"
                     t = self.as_b(t, kd)
@@ -632,9 +721,16 @@ class Fn:
                 t = self.as_z(t, kd)
             return txt(b) + self.finish(tail, t)
         if k == "BreakStmt":
+            if tail[0] == "ploop":
+                return "OK %s" % self.tup(tail[3])
             if tail[0] != "loop":
                 raise Untranslatable("break outside a loop")
             return "OK (None, %s)" % self.tup(tail[3])
+        if k == "IfStmt" and st.get("hasVar"):
+            ins = st["inner"]
+            plain = {kk: vv for kk, vv in st.items() if kk != "hasVar"}
+            plain["inner"] = ins[1:]
+            return self.seq([ins[0], plain] + rest, scope, tail)   # the condition variable stays in scope (names are not reused)
         if k == "IfStmt":
             cb, ct, ck = self.expr(st["inner"][0], scope)
             c = self.as_b(ct, ck)
@@ -667,6 +763,10 @@ class Fn:
             ro = [v for v in self.used(pieces, scope) if v not in stv]
             if any(m.get("kind") == "ReturnStmt" for x in pieces if x for m in walk(x)):
                 ro = [v for v in scope if v not in stv and (v in ro or v in [o for o, _ in self.outs])]
+            has_ret = any(m.get("kind") == "ReturnStmt" for x in pieces if x for m in walk(x))
+            plain_loop = tail[0] == "fall"        # inside a joined branch: the loop's result feeds the join, it cannot return
+            if plain_loop and has_ret:
+                raise Untranslatable("return inside a loop inside a joined branch")
             lname = "%s_loop%d" % (self.gname, len(self.loops) + 1)
             self.loops.append(None)
             idx = len(self.loops) - 1
@@ -685,17 +785,26 @@ class Fn:
             if inc:
                 ib, it, ik = self.expr(inc, sc)
                 recur = txt(ib) + recur
-            btxt = self.seq(bl, sc, ("loop", lname, ro, stv, recur))
-            itxt = "%s%sif %s then (\n%s\n) else (\nOK (None, %s)\n)" % (head, txt(cb), self.as_b(ct, ck), btxt, self.tup(stv))
+            btxt = self.seq(bl, sc, ("ploop" if plain_loop else "loop", lname, ro, stv, recur))
+            if plain_loop:
+                itxt = "%s%sif %s then (\n%s\n) else (\nOK %s\n)" % (head, txt(cb), self.as_b(ct, ck), btxt, self.tup(stv))
+            else:
+                itxt = "%s%sif %s then (\n%s\n) else (\nOK (None, %s)\n)" % (head, txt(cb), self.as_b(ct, ck), btxt, self.tup(stv))
 
             def pty(v):
                 return "list Z" if self.kinds.get(v) == "str" else ("bool" if self.kinds.get(v) == "bool" else "Z")
+            if plain_loop:
+                self.loops[idx] = ("Fixpoint %s (fuel : nat) (buf : list Z) %s {struct fuel} : res (%s) :=\n  match fuel with\n  | O => Err Fuel\n  | S fuel =>\n%s\n  end.\n\n"
+                                   % (lname, " ".join("(%s : %s)" % (v, pty(v)) for v in ro + stv), self.state_type(stv), itxt))
+                return "do %s <- %s fuel buf %s ;;\n%s" % (self.pat(stv), lname, " ".join(ro + stv), self.seq(rest, scope, tail))
             self.loops[idx] = ("Fixpoint %s (fuel : nat) (buf : list Z) %s {struct fuel} : res (option (%s) * (%s)) :=\n  match fuel with\n  | O => Err Fuel\n  | S fuel =>\n%s\n  end.\n\n"
                                % (lname, " ".join("(%s : %s)" % (v, pty(v)) for v in ro + stv), self.ret_type(), self.state_type(stv), itxt))
             r = self.fresh()
             after = self.seq(rest, scope, tail)
             if tail[0] == "loop":
                 got = "OK (Some rv_, %s)" % self.tup(tail[3])
+            elif tail[0] == "ploop":
+                raise Untranslatable("returning loop inside a plain loop")
             else:
                 got = "OK rv_"
             return "do '(%s, %s) <- %s fuel buf %s ;;\nmatch %s with\n| Some rv_ => %s\n| None =>\n%s\nend" % (
@@ -710,11 +819,11 @@ class Fn:
                     b1, t1, k1 = self.expr(st["inner"][1], scope)
                     b2, t2, k2 = self.expr(st["inner"][2], scope)
                     b1, t1 = self.order(b1, t1, b2)
-                    if k1 != "ptr":
+                    if not isptr(k1):
                         raise Untranslatable("assign from " + k1)
                     return txt(b1 + b2) + "do %s <- substr buf %s %s ;;\n" % (v, t1, self.as_z(t2, k2)) + self.seq(rest, scope, tail)
             raise Untranslatable("member call statement")
-        if k in ("BinaryOperator", "UnaryOperator", "CallExpr", "ExprWithCleanups", "CompoundAssignOperator"):
+        if k in ("BinaryOperator", "UnaryOperator", "CallExpr", "ExprWithCleanups", "CompoundAssignOperator", "CXXOperatorCallExpr"):
             b, t, kd = self.expr(st, scope)
             return txt(b) + self.seq(rest, scope, tail)
         raise Untranslatable("statement " + str(k))
@@ -730,10 +839,15 @@ class Fn:
                     raise Untranslatable("unnamed parameter")
                 ok = outparam_kind(t)
                 if is_charptr(t):
-                    self.kinds[p] = "ptr"
-                    params.append("(%s : Z)" % p)
+                    if not any(k.startswith("ptr") for _, k in sig):
+                        self.kinds[p] = "ptr"
+                        params.append("(%s : Z)" % p)
+                        sig.append((p, "ptr:first"))
+                    else:
+                        self.kinds[p] = "ptr:%s_buf" % p
+                        params.append("(%s_buf : list Z) (%s : Z)" % (p, p))
+                        sig.append((p, "ptr:own"))
                     scope.append(p)
-                    sig.append((p, "ptr"))
                 elif re.match(r"^const std::string &$", t.strip()):
                     self.bufparam = p
                     sig.append((p, "buf"))
@@ -782,8 +896,8 @@ class Fn:
                         elif "basic_string" in ty or ty.endswith("std::string") or ty == "std::string":
                             leaves["_".join(p[1])] = "str"
                 if m.get("kind") == "CallExpr":
-                    cn = strip(m["inner"][0]).get("referencedDecl", {}).get("name")
-                    info = self.known.get(cn)
+                    cn = fn_key(strip(m["inner"][0]).get("referencedDecl", {}), self.known)
+                    info = self.known.get(cn) if cn else None
                     if info:
                         for a, (pname, pkind) in zip(m["inner"][1:], info["params"]):
                             p = path_of(a)
@@ -804,12 +918,12 @@ class Fn:
         rt = qt(self.ast).split("(")[0].strip()
         self.ret_kind = "bool" if rt == "bool" else ("ptr" if is_charptr(rt) else "Z")
         term = self.seq(self.body_list(body), scope, ("none",))
-        pre = "".join("let %s := [%s] in\n" % (tn, "; ".join(str(c) for c in cs)) for tn, cs in sorted(self.tables.items()))
+        pre = "".join("let %s := [%s] in\n" % (tn, "; ".join(zl(c) for c in cs)) for tn, cs in sorted(list(self.tables.items()) + list(self.itables.items())))
         text = "".join(l.replace("  | S fuel =>\n", "  | S fuel =>\n" + pre, 1) if pre else l for l in self.loops)
         bufp = "(buf : list Z)"
         text += "Definition %s (fuel : nat) %s %s : res (%s) :=\n%s%s.\n" % (self.gname, bufp, " ".join(params), self.ret_type(), pre, term)
         info = {"gname": self.gname, "params": sig, "outs_of": outs_of, "ret": self.ret_kind if self.ret_kind != "Z" else "Z",
-                "outs": list(self.outs)}
+                "outs": list(self.outs), "ctype": qt(self.ast)}
         return text, info
 
 
@@ -847,29 +961,55 @@ Definition substr (buf : list Z) (p n : Z) : res (list Z) :=
 """
 
 
-def main():
-    out = sys.argv[1] if len(sys.argv) > 1 else os.path.join(os.path.dirname(__file__), "..", "coq", "SourcePosix.v")
-    known, done, failed, parts = {}, [], {}, [PRELUDE]
-    for fn in TARGETS:
+def run_unit(src, targets, out, prelude, prefix):
+    global SRC
+    SRC = src
+    import ast_translate64 as A64
+    known, done, failed, parts = {}, [], {}, [prelude]
+    for fn in targets:
         try:
-            f = Fn(asts_of(fn), known)
-            text, info = f.translate()
-            parts.append(text + "\n")
-            known[fn] = info
-            done.append(fn)
+            defs = asts_of(fn)
         except Untranslatable as e:
             failed[fn] = str(e)
             parts.append("(* %s: not translated: %s *)\n\n" % (fn, e))
+            continue
+        for key, a in defs:
+            try:
+                f = Fn(key, a, known, prefix)
+                text, info = f.translate()
+                parts.append(text + "\n")
+                known[key] = info
+                done.append(key)
+            except Untranslatable as e:
+                failed[key] = str(e)
+                parts.append("(* %s: not translated: %s *)\n\n" % (key, e))
     text = "".join(parts)
     if failed:
-        print(json.dumps({"written": False, "translated": done, "untranslated": failed, "kept_previous": True}))
         if "--force" in sys.argv:
             open(out, "w").write(text)
-        return
+        return {"written": False, "translated": done, "untranslated": failed, "kept_previous": True}
     changed = not os.path.exists(out) or open(out).read() != text
     if changed:
         open(out, "w").write(text)
-    print(json.dumps({"written": changed, "translated": done, "untranslated": failed}))
+    return {"written": changed, "translated": done, "untranslated": failed}
+
+
+PRELUDE2 = PRELUDE.replace("SourcePosix.v", "SourceFmtParse.v").replace("src/time_zone_posix.cc", "src/time_zone_format.cc (ParseInt<int>, ParseInt<long>, ParseOffset, ParseSubSeconds)") \
+    .replace("into the spec string", "into the input text").replace("From CCTZ Require Import Base.", "From CCTZ Require Import Base.\nFrom CCTZ Require Export SourcePosix.")
+
+
+def main():
+    coq = os.path.join(os.path.dirname(__file__), "..", "coq")
+    out1 = sys.argv[1] if len(sys.argv) > 1 and not sys.argv[1].startswith("--") else os.path.join(coq, "SourcePosix.v")
+    r1 = run_unit("src/time_zone_posix.cc", TARGETS, out1, PRELUDE, "sp_")
+    out2 = os.path.join(os.path.dirname(out1), "SourceFmtParse.v")
+    # the second file reuses the runtime definitions of the first (rd, padd, ...): only its header comment and import
+    pre2 = PRELUDE2.split("Local Open Scope Z_scope.")[0] + "Local Open Scope Z_scope.\n" \
+        "Definition tbl_get (l : list Z) (i : Z) : res Z :=\n" \
+        "  if (0 <=? i) && (i <? Z.of_nat (length l)) then OK (nth (Z.to_nat i) l 0) else Err OOB.\n\n"
+    r2 = run_unit(SRC2, TARGETS2, out2, pre2, "sf_")
+    r1["format_cc"] = r2
+    print(json.dumps(r1))
 
 
 if __name__ == "__main__":
